@@ -165,6 +165,40 @@ def identity_tests(base_id):
     return "\n".join(lines) + "\n"
 
 
+SIDE_EFFECT_TESTS = '''
+
+import warnings as _w
+
+
+def _noisy():
+    _w.warn("old api", DeprecationWarning)
+
+
+def test_zz_warning_shown_once_per_location():
+    with _w.catch_warnings(record=True) as caught:
+        _w.simplefilter("default")
+        _noisy()
+        assert [1, "a"] == snapshot([1, "a"])
+        assert 5 <= snapshot(7)
+        for _ in range(2):
+            _noisy()
+    assert len(caught) == 1
+
+
+def test_zz_interpreter_state_untouched():
+    import decimal, locale, os, random, sys
+
+    def state():
+        return (os.getcwd(), list(sys.path), dict(os.environ), random.getstate(), list(_w.filters), sys.getrecursionlimit(), locale.setlocale(locale.LC_ALL), decimal.getcontext().prec, sys.gettrace(), repr)
+
+    before = state()
+    assert {"k": [1, 2.5, "x"]} == snapshot({"k": [1, 2.5, "x"]})
+    assert 3 in snapshot([3, 4])
+    assert snapshot({"a": 1})["a"] == 1
+    assert state() == before
+'''
+
+
 # (name, pytest arguments, environment, session is inactive)
 REAL_MODES = [
     ("default", [], None, False),
@@ -256,6 +290,8 @@ def run_shard(args):
         if inactive:
             # sessions that are disabled implicitly: snapshot(v) is v itself for every test, also after an xfail test
             src += "\n\ndef test_zz_identity():\n    assert type(snapshot([1, 2])) is list\n    assert type(snapshot({'k': (1, 2)})) is dict\n\n\ndef test_zz_negated_comparison():\n    assert not (3 == snapshot(2))\n    assert not (3 <= snapshot(2))\n    assert 3 not in snapshot([2])\n"
+        # a comparison against snapshot(v) has no observable side effect that the comparison against v does not have
+        src += SIDE_EFFECT_TESTS
         proj = session.Project({"test_a.py": src})
         try:
             ra = session.run_session(proj, mode, env=menv)
